@@ -211,7 +211,33 @@ func knownNonNilAt(v ssa.Value, b *ssa.BasicBlock) bool {
 			return true
 		}
 	}
+	// the same place tested through another load of it, or inside a predicate helper
+	if p := placeOf(v); p != "" {
+		if in, ok := v.(ssa.Instruction); ok {
+			return pathKnown(in.Parent(), p, true, b)
+		}
+		if prm, ok := v.(*ssa.Parameter); ok {
+			return pathKnown(prm.Parent(), p, true, b)
+		}
+	}
 	return false
+}
+
+// placeOf: the access path of a value that is a load of a field / local cell, or
+// a parameter; "" otherwise.
+func placeOf(v ssa.Value) string {
+	switch x := stripConv(v).(type) {
+	case *ssa.UnOp:
+		if x.Op == token.MUL {
+			switch x.X.(type) {
+			case *ssa.FieldAddr:
+				return accessPath(x)
+			}
+		}
+	case *ssa.Parameter:
+		return accessPath(x)
+	}
+	return ""
 }
 
 func knownNilAt(v ssa.Value, b *ssa.BasicBlock) bool {
